@@ -35,6 +35,10 @@ REG_SENTINELS = {"num": -999.0}
 def encode(y_id, enc):
     """y_id: int array with -1 for missing."""
     ml, dt, classes = ENCODINGS[enc]
+    if y_id.size and (y_id >= 0).all():
+        # no missing entry: the array gets its natural (possibly narrower) dtype, as a user would build it from labels only
+        out = np.array([classes[i] for i in y_id.reshape(-1)]).reshape(y_id.shape)
+        return out, ml, classes
     out = np.empty(y_id.shape, dtype=dt)
     flat, src = out.reshape(-1), y_id.reshape(-1)
     for i in range(flat.size):
@@ -49,8 +53,15 @@ def gen_cases(tier, seed):
     for name, e in POOL.items():
         for i in range(max(2, reps // e.slow)):
             cases.append({"family": "pool", "entry": name, "seed": stable_hash(seed, "C09", name, i), "enc": encs[(i + stable_hash(seed, name)) % len(encs)],
-                          "nmax": 12 if tier == "quick" else 20, "labels": ["half", "random", "unobserved", "one"][i % 4],
+                          "nmax": 12 if tier == "quick" else 20, "labels": ["half", "random", "unobserved", "one", "full"][i % 5],
+                          "wrap": ["none", "none", "sub_excl", "sub"][(i + stable_hash(seed, name, "w")) % 4],
                           "variant": ["plain", "feat", "x_eval"][(i + stable_hash(seed, name, "v")) % 3]})
+    # fully labelled y (natural, possibly narrower dtype) with feature-row candidates, once per encoding
+    for name, e in POOL.items():
+        if e.feat and e.kind in ("clf", "both"):
+            for j, en in enumerate(encs):
+                cases.append({"family": "pool", "entry": name, "seed": stable_hash(seed, "C09", "full", name, j), "enc": en,
+                              "nmax": 10 if tier == "quick" else 16, "labels": "full", "variant": "feat", "wrap": "none", "kind_forced": "clf"})
     for name in streams.STRAT_NAMES:
         for i in range(max(1, reps // 2)):
             cases.append({"family": "stream", "name": name, "seed": stable_hash(seed, "C09", "s", name, i),
@@ -93,12 +104,15 @@ def run_pool(desc):
     if miss:
         return {"status": "inconclusive", "reason": "exported strategies not in registry: %s" % miss}
     variant = desc["variant"]
-    cdesc = dict(desc, cmode="feat" if variant == "feat" and POOL[desc["entry"]].feat else None, batch=None)
-    c, why = poolcase.build_in_domain(cdesc)
+    cdesc = dict(desc, cmode="feat" if (variant == "feat" or desc.get("labels") == "full") and POOL[desc["entry"]].feat else None, batch=None)
+    if cdesc["cmode"] != "feat" and cdesc.get("labels") == "full":
+        cdesc["labels"] = "half"
+    accept = (lambda cc: None if cc.kind == "clf" else "classification case wanted") if desc.get("kind_forced") == "clf" else None
+    c, why = poolcase.build_in_domain(cdesc, accept)
     if why:
         return {"status": "skip", "skip_reason": why}
     e = c.entry
-    comp = e.cls.__name__
+    comp = e.cls.__name__       # with wrap != none the strategy runs inside a SubSamplingWrapper (named in the detail text)
     rng = gen.rng_for("c09p", desc["seed"])
     is_reg = c.kind == "reg"
     y_id = np.where(c.lab, c.y_true.astype(int), -1)
@@ -109,6 +123,10 @@ def run_pool(desc):
     def call(y, ml, classes):
         mk_params = inspect.signature(e.make).parameters
         qs = e.make(c.strategy_seed, ml, classes=tuple(classes)) if "classes" in mk_params else e.make(c.strategy_seed, ml)
+        if desc.get("wrap", "none") != "none" and c.cmode != "idx_any" and not (c.cmode == "feat" and c.n_labeled == 0):
+            import skactiveml.pool as P
+            qs = P.SubSamplingWrapper(qs, max_candidates=0.6, exclude_non_subsample=desc["wrap"] == "sub_excl", missing_label=ml,
+                                      random_state=c.strategy_seed)
         ctx = {"classes": list(classes), "ml": ml, "kind": c.kind}
         kw = dict(e.kwargs(ctx))
         if X_eval is not None:
@@ -141,7 +159,7 @@ def run_pool(desc):
         except Exception as ex:
             errs[nm] = "%s: %s" % (type(ex).__name__, str(ex)[:160])
     contracts.count("C09.encoding-pair-oracle")
-    ctx = "%s variant=%s enc=%s" % (poolcase.cell_summary(c), variant, enc)
+    ctx = "%s variant=%s enc=%s wrapper=%s" % (poolcase.cell_summary(c), variant, enc, desc.get("wrap", "none"))
     if len(errs) == 1:
         nm = next(iter(errs))
         viol.append({"component": comp, "kind": "raises-under-one-encoding-only:%s" % ("reference" if nm == "nan" else "non-default"),
